@@ -17,6 +17,7 @@ import (
 	"os"
 	"reflect"
 	"strings"
+	"sync"
 
 	"github.com/miscreant/miscreant.go"
 
@@ -31,11 +32,14 @@ var w *lib.Writer
 // ---- scripted crypto/rand ----
 
 type tapeReader struct {
+	mu  sync.Mutex
 	q   []byte
 	rng *lib.Rng
 }
 
 func (t *tapeReader) Read(p []byte) (int, error) {
+	t.mu.Lock()
+	defer t.mu.Unlock()
 	for i := range p {
 		if len(t.q) > 0 {
 			p[i] = t.q[0]
@@ -50,6 +54,8 @@ func (t *tapeReader) Read(p []byte) (int, error) {
 var tape = &tapeReader{}
 
 func setTape(b ...[]byte) {
+	tape.mu.Lock()
+	defer tape.mu.Unlock()
 	tape.q = nil
 	for _, x := range b {
 		tape.q = append(tape.q, x...)
@@ -456,6 +462,12 @@ func authPos(pkt *nts.Packet) int {
 // recv runs the real DecodePacket and ProcessRequest (dir 0) or
 // ProcessResponse (dir 1) on b and records what happened.
 func recv(tags string, hs []*honest, dir int, b, key, reqid []byte) (accepted bool) {
+	return recvK("", "", tags, hs, dir, b, key, reqid)
+}
+
+// recvK: kind "" = nts.req / nts.resp by direction; otherwise a kind of its own
+// whose arguments are those of nts.resp followed by extra.
+func recvK(kind, extra string, tags string, hs []*honest, dir int, b, key, reqid []byte) (accepted bool) {
 	var pkt nts.Packet
 	dcode, acode := 0, -1
 	func() {
@@ -515,7 +527,9 @@ func recv(tags string, hs []*honest, dir int, b, key, reqid []byte) (accepted bo
 	} else {
 		outs = lib.V(lib.I(int64(dcode)), "x", "[]", "0", "x", "x", "0", "-1", "[]")
 	}
-	if dir == 0 {
+	if kind != "" {
+		w.Case(kind, tags, lib.V(HL(hs), lib.B(b), lib.B(key), lib.B(reqid), tab(ent), extra), outs)
+	} else if dir == 0 {
 		w.Case("nts.req", tags, lib.V(HL(hs), lib.B(b), lib.B(key), tab(ent)), outs)
 	} else {
 		w.Case("nts.resp", tags, lib.V(HL(hs), lib.B(b), lib.B(key), lib.B(reqid), tab(ent)), outs)
@@ -931,6 +945,50 @@ func exchanges(r *lib.Rng, n int) {
 	}
 }
 
+// longSession: one client session that makes n requests through the real
+// nts.NewRequestPacket, each with the identifier that newID draws for it.  The
+// server's response to every request is recorded; the client with request i
+// outstanding is handed its own response (accepted) and the responses to requests
+// i-1, i-2, i-64, i-128, i-256 (a response to a different request: rejected).
+func longSession(r *lib.Rng, n int) {
+	s := newSession(r)
+	ck := s.freshCookie(r)
+	type exch struct {
+		uid []byte
+		p   *honest
+	}
+	var hist []exch
+	for i := 0; i < n; i++ {
+		setTape() // nothing scripted: the identifier is what newID reads from the random source
+		_, id := nts.NewRequestPacket(ntske.Data{C2sKey: s.c2s, S2cKey: s.s2c, Cookie: s.pool, Algo: s.algo})
+		id = clone(id)
+		// the response as the listeners build it
+		pkt := nts.NewResponsePacket([][]byte{ck}, s.s2c, id)
+		nonce := r.Bytes(16)
+		hdr := genHdr(r)
+		out, panicked := goEncode(hdr, &pkt, nonce, false)
+		fields, pos, ok := layout(id, nil, nil)
+		if panicked || !ok || pos > len(out) {
+			panic("long session: response not encoded")
+		}
+		_, ct := sealEntry(s.s2c, nonce, out[:pos], false, pkt.Auth.PlainText)
+		fields = append(fields, field{off: pos, length: len(out) - pos, typ: 0x404})
+		p := &honest{b: out, pos: pos, nonce: nonce, ct: ct, key: s.s2c, dir: 1, uid: id, pt: pkt.Auth.PlainText, fields: fields}
+		hist = append(hist, exch{uid: id, p: p})
+		nk := func(k int) string { return lib.V(lib.I(int64(i)), lib.I(int64(k))) }
+		recvK("nts.session", nk(i), "nt,honest,complete,session", []*honest{p}, 1, p.b, s.s2c, id)
+		for _, d := range []int{1, 2, 64, 128, 256} {
+			if k := i - d; k >= 0 {
+				tg := fmt.Sprintf("nt,history,session,old%d", d)
+				if bytes.Equal(hist[k].uid, id) {
+					tg += ",uidrepeat"
+				}
+				recvK("nts.session", nk(k), tg, []*honest{hist[k].p, p}, 1, hist[k].p.b, s.s2c, id)
+			}
+		}
+	}
+}
+
 func wrongKeys(r *lib.Rng, h *honest, t target) {
 	hs := []*honest{h}
 	for _, k := range badKeys(r, t.key, len(h.pt) == 0) {
@@ -1180,6 +1238,8 @@ func replay(path string) {
 			recv(c[1], parseHonests(a[0]), 0, a[1].B(), a[2].B(), nil)
 		case "nts.resp":
 			recv(c[1], parseHonests(a[0]), 1, a[1].B(), a[2].B(), a[3].B())
+		case "nts.session":
+			recvK("nts.session", lib.V(lib.I(a[5].I()), lib.I(a[6].I())), c[1], parseHonests(a[0]), 1, a[1].B(), a[2].B(), a[3].B())
 		case "nts.encode":
 			encodeCase(c[1], a[0].B(), a[1].B(), a[2].BL(), a[3].BL(), a[4].B(), a[5].B(), a[6].B(), false)
 		case "nts.newresp":
@@ -1312,6 +1372,11 @@ func main() {
 	for i := 0; i < ne; i++ {
 		exportCase("nt")
 	}
+	longSession(r, 300)
+	if thorough {
+		longSession(r, 700)
+	}
+	clientCases(r, thorough)
 	extraCases(r, thorough)
 	fmt.Fprintf(os.Stderr, "c10: %d cases\n", w.N())
 }
